@@ -168,10 +168,11 @@ def prune_build_cache(keep_hours=48):
 FEAT = dict(PLANS='FFSM2_ENABLE_PLANS=', SER='FFSM2_ENABLE_SERIALIZATION=', HIST='FFSM2_ENABLE_TRANSITION_HISTORY=', LOG='FFSM2_ENABLE_LOG_INTERFACE=',
             VERBOSE='FFSM2_ENABLE_VERBOSE_DEBUG_LOG=', STRUCT='FFSM2_ENABLE_STRUCTURE_REPORT=', DBGTYPE='FFSM2_ENABLE_DEBUG_STATE_TYPE=', NOTYPEINDEX='FFSM2_DISABLE_TYPEINDEX=', ALL='FFSM2_ENABLE_ALL=')
 
-def cfg(N=3, HEAD=1, MANUAL=0, PAYLOAD=0, L=2, CAP=0, CTX=1, feats=(), INJ=None, BARE=0, extra=()):
+def cfg(N=3, HEAD=1, MANUAL=0, PAYLOAD=0, L=2, CAP=0, CTX=1, feats=(), INJ=None, BARE=0, extra=(), SPARSE=None):
     d = ['VX_N=%d' % N, 'VX_HEAD=%d' % HEAD, 'VX_MANUAL=%d' % MANUAL, 'VX_PAYLOAD=%d' % PAYLOAD, 'VX_L=%d' % L, 'VX_CAP=%d' % CAP, 'VX_CTX=%d' % CTX, 'VX_BARE=%d' % BARE]
     if INJ:
         for k, v in INJ.items(): d.append('VX_INJ_%s=%d' % (k, v))
+    if SPARSE: d += ['VX_SPARSE=%d' % SPARSE[0], 'VX_SPARSE_SHAPE=%d' % SPARSE[1]]
     d += [FEAT[f] for f in feats]
     d += list(extra)
     return d
